@@ -7,7 +7,7 @@ from harness import core, py2lean, instantiate
 from harness.core import Outcome, f2b, b2f
 
 ID = "C19"
-LEAN_TARGETS = ["BeyondVerif.Props.C19", "BeyondVerif.Props.C19Geom", "BeyondVerif.Props.C19Kepler"]
+LEAN_TARGETS = ["BeyondVerif.Props.C19", "BeyondVerif.Props.C19Geom", "BeyondVerif.Props.C19Kepler", "BeyondVerif.Witness.C19"]
 THEOREMS = [
     "BeyondVerif.C19.ltan_raan_inverse",
     "BeyondVerif.C19.ltan_raan_inverse_in_day",
@@ -39,6 +39,24 @@ THEOREMS = [
     "BeyondVerif.C19.lambert_A_sq",
     "BeyondVerif.C19.lambert_solves_universal_kepler",
     "BeyondVerif.C19.lambert_solves_universal_kepler_dtheta",
+    "BeyondVerif.C19.lamDtheta_eq",
+    "BeyondVerif.C19.lamDtheta_range",
+    "BeyondVerif.C19.lamDtheta_two_ways",
+    "BeyondVerif.C19.lamDtheta_direction",
+    "BeyondVerif.C19.lambert_A_ne_zero",
+    "BeyondVerif.C19.lambert_solves_universal_kepler_noncollinear",
+    "BeyondVerif.C19.lambert_v0_direction",
+    "BeyondVerif.C19W.sign_selection_degenerate",
+    "BeyondVerif.C19W.code_selection_polar",
+    "BeyondVerif.C19W.sign_selection_not_equivalent",
+    "BeyondVerif.C19.j2_setter_unconditional",
+    "BeyondVerif.C19.j2_getter_private_copy",
+    "BeyondVerif.C19.j2_run_priv_irrelevant",
+    "BeyondVerif.C19.j2_history_fresh",
+    "BeyondVerif.C19.j2_history_eq_fresh_object",
+    "BeyondVerif.C19.sso_tuned_in_place_node_rate",
+    "BeyondVerif.C19.betaAngle_eq",
+    "BeyondVerif.C19.beta_environment",
     "BeyondVerif.C19.beta_clip_in_domain",
     "BeyondVerif.C19.beta_arg_in_domain",
     "BeyondVerif.C19.beta_range",
@@ -49,14 +67,21 @@ THEOREMS = [
     "BeyondVerif.C19.bplane_B_perp",
     "BeyondVerif.C19.bplane_B_norm",
 ]
-LEVEL_TEXT = ("Lean theorems over R about formulas translated from the Python source on every run (Stumpff functions, y, F, dF, A, f/g/gdot of lambert.py; the three modes "
-              "of leo.sso; the node rate of propagators/j2.py and Infos.n; raan2ltan/ltan2raan; raan/nu of both Walker classes) and about hand-written models of the "
+LEVEL_TEXT = ("Lean theorems over R about formulas translated from the Python source on every run (Stumpff functions, y, F, dF, A, f/g/gdot AND the head of _lambert - norms, cross "
+              "product, arccos, direction / way selection - of lambert.py; the arithmetic of beta.py; the three modes "
+              "of leo.sso; the three secular rates of propagators/j2.py, the text of the J2.orbit getter / setter, and Infos.n; raan2ltan/ltan2raan; raan/nu of both Walker classes) and about hand-written models of the "
               "Lambert loops, the Walker generators, beta and bplane that are tied to the code by a differential correspondence run: LTAN<->RAAN are exact inverses modulo "
               "day / 2 pi for any sun angle; Walker fleets have t satellites, evenly spaced planes, phasing 2 pi f / t; sso is self-inverse and makes the J2 node rate equal "
               "the solar rate; the Lambert velocities satisfy the f-g arrival relations with the universal-variable Lagrange coefficients whenever F(z) = 0, the returned "
               "state (r0, v0) solves Kepler's universal equation for the requested time with z = alpha chi^2 (all four direction/way cases), the bracketed Newton "
               "loop breaks only when its last step (Newton or bisection) is below the tolerance and its iterates never leave the bracket found by the scan; beta is in [-pi/2, pi/2] and is the elevation above the orbit plane; S is the unit incoming-asymptote direction, (S,T,R) "
-              "orthonormal, B perpendicular to S and h with |B| = |a| sqrt(e^2-1).")
+              "orthonormal, B perpendicular to S and h with |B| = |a| sqrt(e^2-1). "
+              "Direction / way selection (as it is in the source: lamDtheta_eq): for EVERY non-collinear pair of positions - r0 x r1 != 0 as a vector, any of its components may be exactly zero - and either "
+              "request, 0 < dtheta < 2 pi, dtheta != pi, A finite and non-zero, the two requests add up to 2 pi (the two ways round), sin(dtheta) and the z component of r0 x v0 of the "
+              "returned state have the sign the request asks for; the Kepler-equation theorem holds with the single geometric hypothesis r0 x r1 != 0; kernel-checked witness that a "
+              "sign(cr[2])-based selection degenerates at cr[2] = 0. J2 propagator object as a state machine (user's orbit + private copy; setter text regenerated from the AST and "
+              "proved to be the unconditional copy): along every history of propagations and in-place writes of elements / date on one orbit object each propagation returns what a fresh "
+              "object built from the current values returns, and once the inclination is sso(a, e) of the current a, e the node moves at the solar rate.")
 LEVEL_NOTE = ("R -> double gap covered only by tolerance-bounded correspondence (this gap is where the two findings, now fixed in /repo, lived: NaN from a Newton overshoot "
               "- 5cfb34d, NaN from arcsin(1+ulp) - 1d112fc; their oracle families stay alive); existence of the Lambert root, convergence of scan + Newton, and 'the universal-variable f-g map is the two-body flow' are not proved; "
               "Lean kernel + propext/Classical.choice/Quot.sound; py2lean translator and harness trusted")
@@ -64,12 +89,18 @@ TECHNIQUE = "Lean 4 proof (ring / field_simp / floor arithmetic / induction on l
 TRUSTED = [
     "harness/py2lean.py + fn_def/Tr19 in harness/props/C19.py: translate the function bodies of lambert.py (_C,_S,_y,_F,_dF, A and f/g/gdot slices of _lambert), leo.py (three return expressions of sso), "
     "j2.py (com, dOmega), statevector.py (Infos.n), ltan.py (raan2ltan, ltan2raan), constellation.py (raan, nu of both classes) into Generated/{LambertFn,LeoFn,LtanFn,WalkerFn}{F,R}.lean on every run",
-    "lean/templates/Mission.tpl (hand-written: 3-vector algebra, dtheta selection, scan and Newton loops, v0/v1 assembly, Walker generator loops, beta, bplane), tied by the correspondence run",
+    "lean/templates/Mission.tpl (hand-written: 3-vector algebra, scan and Newton loops, v0/v1 assembly, Walker generator loops, bplane, the J2Obj state machine - its setter is the "
+    "unconditional copy that theorem j2_setter_unconditional reads off the regenerated setter text), tied by the correspondence run",
+    "TrSel / dtheta_def / accessor_stmts in harness/props/C19.py: the statements of _lambert before `A = ...` -> Generated/LambertFn.lamDthetaSrc, the arithmetic of beta() -> Generated/BetaFn.betaSrc (+ the surrounding object-access statements as text, betaEnv) (3-vectors as components, np.cross, np.linalg.norm, `@`, np.sign, "
+    "if/elif); the unparsed statements of the J2.orbit getter and setter -> Generated/LeoFn.j2OrbitGetter / j2OrbitSetter",
     "numpy / libm double arithmetic vs R: tolerance 1e-9 relative (1e-7 (1 + 0.01/dE^2) on Lambert velocities after the iteration, whose exit criterion is an absolute 1e-8 in z = dE^2), Walker fleets bit-exact",
 ]
 ASSUMPTIONS = [
     "theorems are over R; the implementation computes in IEEE doubles",
-    "Lambert: F(z) = 0 (resp. the convergence flag) is a hypothesis; y(z) >= 0, C(z) > 0, mu > 0, g != 0",
+    "Lambert: F(z) = 0 (resp. the convergence flag) is a hypothesis; y(z) >= 0, C(z) > 0, mu > 0, g != 0; geometry: r0 != 0, r1 != 0, r0 x r1 != 0 as a vector (no condition on single components)",
+    "oracle on hand-written geometry: positions 15 to 165 deg apart, transfer time 1.05 to 5 times the parabolic time (Euler's equation) of the way round that the request designates - an elliptic solution of "
+    "less than one revolution exists; for cr[2] = 0 or |cr[2]| <= 1e-9 |r0||r1| (polar transfer plane, neither way is pro- or retrograde) the time exceeds both parabolic times and either way is accepted",
+    "J2 histories: the user's orbit is kept in keplerian_mean form (writes by index 0..5 and of the date); the model's epoch is seconds from the first epoch",
     "sso: a > 0, mu > 0, re != 0, J2 != 0, e^2 != 1 (0 <= e < 1 for the eccentricity mode) and -1 <= ssoCos <= 1 (a sun-synchronous inclination exists)",
     "the 'mean solar rate' is the constant the code uses, 2 pi / 365.256363004 d (sidereal year); the tropical-year rate differs from it by 3.9e-5 relative",
     "B-plane: e > 1, h != 0, S not along the pole (0,0,1) (T undefined there); |a| is an input of the model (cartesian -> keplerian conversion belongs to C01)",
@@ -80,17 +111,27 @@ NOT_COVERED = [
     "that the universal-variable formulation (Kepler's universal equation + Lagrange coefficients f, g) is the two-body flow (classical result, C05's domain; what IS proved: the returned state satisfies that equation for the requested time and r1 = f r0 + g v0); the oracle propagates with an independent universal-variable Kepler solver and with the Kepler propagator",
     "lamDF is the derivative of lamF (Newton would merely converge more slowly otherwise): not proved",
     "_mean_sun_raan / _true_sun_raan themselves (the theorems hold for an arbitrary sun angle), orb2ltan, sso_frozen / frozen, beta_limit, flyby (which references undefined names and cannot run)",
-    "theta of the B-plane",
+    "theta of the B-plane (observed while adding coordinate-plane hyperbolas: for an equatorial hyperbola B is parallel to T, the arccos argument is +-1 +- 1 ulp and theta is 0, pi or NaN "
+    "according to rounding, in the code and in the model alike; theta is not part of the property statement)",
+    "Orbit.propagate / Orbit.iter themselves (`if self.propagator.orbit is not self: self.propagator.orbit = self`, orbits/orbit.py): part of the J2Obj model by description, exercised by the history "
+    "correspondence and the sso-sequence oracle, not translated from the source (C05's anchor)",
 ]
 OPEN = [
-    "beta and bplane models are hand-written (vector code is outside py2lean's expression language); tied to the code by correspondence only",
+    "the bplane model is hand-written; tied to the code by correspondence only (TrSel of this module translates the head of _lambert and the arithmetic of beta; bplane needs vector-valued expressions)",
+    "at cr[2] = 0 the request cannot be 'matched' (a polar transfer is neither pro- nor retrograde): what is proved there is that a proper angle is chosen and that the two requests are the two ways round",
     "sso i -> a -> i and i -> e -> i round trips (modes starting from an inclination) are checked by the oracle only",
 ]
 RULE = ("correspondence: random inputs from ctx.rng through the real functions and the compiled Lean model: lambert scalar functions (z<0, 0, >0; y<0 gives non-finite on both sides), "
-        "full _lambert (both directions, short/long way, small angles), sso 3 modes + J2 node rate measured through J2.propagate, ltan both types (sun angle taken from the real code), "
-        "Walker fleets bit-exact incl. planes not dividing total, beta vs Orbit references, bplane for e in [1.05,10]; non-trivial = every case; distinct = distinct request. "
-        "oracle: Lambert arrival within 10 m by independent universal-variable propagation and by the Kepler propagator through the public lambert(); sso round trips + node rate; "
-        "ltan round trips; Walker count/planes/in-plane/phasing; beta range + elevation incl. bodies on the orbit normal; bplane S/orthonormal/B perp/|B|/B x v_inf = h")
+        "full _lambert on arcs cut from orbits (both directions, short/long way, small angles) and on hand-written geometry (coordinate planes, planes through one axis, exact-zero components of "
+        "r0 x r1, axis-parallel positions, exactly 90 deg, both requests; a non-finite or > 1e5 m/s result inside the domain is a failure of the code, not agreement), transfer angle / A of the model "
+        "on the same geometry, histories propagate / orb[k] = v / orb.date = t on one Orbit object with a J2 propagator against the J2Obj state machine, sso 3 modes + J2 node rate measured "
+        "through J2.propagate, ltan both types (sun angle taken from the real code), "
+        "Walker fleets bit-exact incl. planes not dividing total and raan0 != 0 (whole degrees, tenths, next to 2 pi), beta vs Orbit references incl. axis-aligned orbits and bodies exactly on an axis / on the normal, "
+        "bplane for e in [1.05,10] incl. hyperbolas in coordinate planes; non-trivial = every case; distinct = distinct request. "
+        "oracle: Lambert arrival within 10 m by independent (bracketed) universal-variable propagation and by the Kepler propagator through the public lambert(); on hand-written geometry both requests: finite, arrival at "
+        "both ends, direction of r0 x v0, two ways round; sso round trips + node rate; sso -> Orbit(J2) -> propagate|iter -> tune i|a|e in place -> propagate|iter: solar rate and equal to a fresh object; "
+        "ltan round trips; Walker count/planes/in-plane/phasing (thorough: every p <= 6, t/p <= 4, f < p); beta range + elevation incl. bodies on the orbit normal and on the axes; "
+        "bplane S/orthonormal/B perp/|B|/B x v_inf = h incl. coordinate planes; read - modify in place - read again on the objects handed to beta, bplane and on Walker objects")
 
 MU_E = 3.986004418e14          # only used by the generators to make plausible cases; the checks read mu from the real frames
 TWO_PI = 2 * math.pi
@@ -145,6 +186,95 @@ def fn_def(path, qualname, inputs, lean_name, consts=None, funcs=None, pick_retu
     return f"def {lean_name} ({args} : R) : R :=\n{py2lean.indent(text)}\n"
 
 
+class TrSel(py2lean.TrFn):
+    """py2lean.TrFn (3-vectors as scalar components, np.cross, np.linalg.norm, np.sign, `v[k]`) + `a @ b` of two 3-vectors"""
+
+    def expr(self, e):
+        if isinstance(e, ast.BinOp) and isinstance(e.op, ast.MatMult):
+            a, b = self.vec_of(e.left), self.vec_of(e.right)
+            if a is None or b is None or len(a) != len(b):
+                raise py2lean.Untranslatable("@ of non-vectors")
+            return "(" + " + ".join(f"({x} * {y})" for x, y in zip(a, b)) + ")"
+        return super().expr(e)
+
+    def vec_of(self, node):
+        if isinstance(node, ast.Call) and self.dotted(node.func) in ("np.asarray", "numpy.asarray") and len(node.args) == 1 and not isinstance(node.args[0], (ast.List, ast.Tuple)):
+            v = self.vec_of(node.args[0])
+            if v is not None:
+                return v
+        return super().vec_of(node)
+
+
+def is_env_stmt(s):
+    """a statement that fetches the numbers from objects (method calls on something else than numpy / math, isinstance dispatch):
+    outside the expression language - kept as text"""
+    if isinstance(s, ast.If) and any(isinstance(n, ast.Call) and isinstance(n.func, ast.Name) and n.func.id == "isinstance" for n in ast.walk(s.test)):
+        return True
+    for n in ast.walk(s):
+        if isinstance(n, ast.Call) and isinstance(n.func, ast.Attribute):
+            root = n.func
+            while isinstance(root, ast.Attribute):
+                root = root.value
+            if not (isinstance(root, ast.Name) and root.id in ("np", "numpy", "math")):
+                return True
+    return False
+
+
+def beta_def(path):
+    """`beta(orb, ref)`: the arithmetic on the cartesian state `orb` (6-vector) and the position `ref_pos` (3-vector) as
+    `betaSrc`; the statements that obtain these two from the objects as the text list `betaEnv`"""
+    fn = py2lean.find_function(ast.parse(open(path).read()), "beta")
+    stmts = [s for s in fn.body if not (isinstance(s, ast.Expr) and isinstance(s.value, ast.Constant))]
+    env = [ast.unparse(s) for s in stmts if is_env_stmt(s)]
+    tr = TrSel(funcs={"clip": "clipR"})
+    tr.vecs = {"orb": ["px", "py", "pz", "vx", "vy", "vz"], "ref_pos": ["rx", "ry", "rz"]}
+    body = tr.stmts([s for s in stmts if not is_env_stmt(s)])
+    return (f"def betaSrc (px py pz vx vy vz rx ry rz : R) : R :=\n{py2lean.indent(body)}\n\n"
+            "/-- the statements of `beta` outside the arithmetic: where the state and the position of the body come from -/\n"
+            f"def betaEnv : List String := {lean_strs(env)}\n")
+
+
+CLIP_PRELUDE = """/-- `np.clip(x, lo, hi)` (a NaN passes through, as in numpy) -/
+def clipR (x lo hi : R) : R := if x < lo then lo else if x > hi then hi else x
+
+"""
+
+
+def dtheta_def(path):
+    """the head of `_lambert` — norms, cross product, transfer angle and the direction / way selection, every statement
+    before the first assignment of `A` — as `def lamDthetaSrc (r0x … r1z : R) (prograde : Bool) : R`"""
+    fn = py2lean.find_function(ast.parse(open(path).read()), "_lambert")
+    stmts = [s for s in fn.body if not (isinstance(s, ast.Expr) and isinstance(s.value, ast.Constant))]
+    cut = next((k for k, s in enumerate(stmts) if isinstance(s, ast.Assign) and any(isinstance(t, ast.Name) and t.id == "A" for t in s.targets)), None)
+    if cut is None:
+        raise py2lean.Untranslatable("_lambert: no assignment of A")
+    tr = TrSel()
+    tr.vecs = {"r0": ["r0x", "r0y", "r0z"], "r1": ["r1x", "r1y", "r1z"]}
+    tr.defined.add("prograde")
+    body = tr.stmts(stmts[:cut] + [ast.Return(value=ast.Name(id="dtheta", ctx=ast.Load()))])
+    return f"def lamDthetaSrc (r0x r0y r0z r1x r1y r1z : R) (prograde : Bool) : R :=\n{py2lean.indent(body)}\n"
+
+
+def accessor_stmts(path, cls, name):
+    """source text of the statements of the getter and of the setter of property `cls.name` (docstrings dropped)"""
+    tree = ast.parse(open(path).read())
+    c = next(n for n in tree.body if isinstance(n, ast.ClassDef) and n.name == cls)
+    get, set_ = [], []
+    for f in c.body:
+        if isinstance(f, ast.FunctionDef) and f.name == name:
+            body = [ast.unparse(s) for s in f.body if not (isinstance(s, ast.Expr) and isinstance(s.value, ast.Constant))]
+            deco = [ast.unparse(d) for d in f.decorator_list]
+            if "property" in deco:
+                get = body
+            elif f"{name}.setter" in deco:
+                set_ = body
+    return get, set_
+
+
+def lean_strs(xs):
+    return "[" + ", ".join('"' + x.replace("\\", "\\\\").replace('"', '\\"').replace("\n", "\\n") + '"' for x in xs) + "]"
+
+
 def extract(ctx):
     ch = []
     L = src("utils", "lambert.py")
@@ -157,6 +287,7 @@ def extract(ctx):
         fn_def(L, "_dF", ["nr0", "nr1", "A", "z"], "lamDF", funcs=lf),
         py2lean.translate_slice(L, "_lambert", ["nr0", "nr1", "dtheta"], ["A"], "lamA"),
         py2lean.translate_slice(L, "_lambert", ["nr0", "nr1", "A", "z", "mu"], ["f", "g", "gdot"], "lamFG", funcs=lf),
+        dtheta_def(L),
     ])
     ch += py2lean.instantiate(core.LEAN, "LambertFn", body, "beyond/utils/lambert.py")
     E = {"Earth.mu": "mu", "Earth.r": "re", "Earth.J2": "j2"}
@@ -167,6 +298,10 @@ def extract(ctx):
         fn_def(P, "sso", ["a", "i"], "ssoE", consts=E, pick_return=2, extra_inputs=["mu", "re", "j2"]),
         py2lean.translate_slice(src("propagators", "j2.py"), "J2.propagate", ["n", "re", "a", "e", "i", "j2"], ["dΩ"], "j2NodeRate", consts={"Earth.J2": "j2"}),
         fn_def(src("orbits", "statevector.py"), "Infos.n", [], "meanMotion", consts={"self.mu": "mu", "self.kep.a": "a"}, extra_inputs=["mu", "a"]),
+        py2lean.translate_slice(src("propagators", "j2.py"), "J2.propagate", ["n", "re", "a", "e", "i", "j2"], ["dΩ", "dω", "dM"], "j2Rates", consts={"Earth.J2": "j2"}),
+        "/-- the statements of the getter / setter of `J2.orbit`, as text (what the propagator keeps between two calls) -/\n"
+        "def j2OrbitGetter : List String := " + lean_strs(accessor_stmts(src("propagators", "j2.py"), "J2", "orbit")[0]) + "\n\n"
+        "def j2OrbitSetter : List String := " + lean_strs(accessor_stmts(src("propagators", "j2.py"), "J2", "orbit")[1]) + "\n",
     ])
     ch += py2lean.instantiate(core.LEAN, "LeoFn", body, "beyond/utils/leo.py, beyond/propagators/j2.py, beyond/orbits/statevector.py (Infos.n)")
     T = src("utils", "ltan.py")
@@ -184,6 +319,7 @@ def extract(ctx):
         fn_def(W, "WalkerDelta.nu", ["planes", "raan0", "per_plane", "spacing", "i_plane", "i_sat"], "deltaNu", consts=cs, funcs={"self.raan": "deltaRaan planes raan0"}),
     ])
     ch += py2lean.instantiate(core.LEAN, "WalkerFn", body, "beyond/utils/constellation.py")
+    ch += py2lean.instantiate(core.LEAN, "BetaFn", CLIP_PRELUDE + beta_def(src("utils", "beta.py")), "beyond/utils/beta.py")
     ch += instantiate.main()
     return ch
 
@@ -209,15 +345,33 @@ def kepler_uv(r0, v0, dt, mu):
     vr0 = float(r0 @ v0) / nr0
     alpha = 2 / nr0 - float(v0 @ v0) / mu
     sm = math.sqrt(mu)
-    chi = sm * abs(alpha) * dt
-    for _ in range(300):
+
+    def FdF(chi):
         z = alpha * chi * chi
         C, S = stumpff(z)
-        F = nr0 * vr0 / sm * chi ** 2 * C + (1 - alpha * nr0) * chi ** 3 * S + nr0 * chi - sm * dt
-        dF = nr0 * vr0 / sm * chi * (1 - alpha * chi ** 2 * S) + (1 - alpha * nr0) * chi ** 2 * C + nr0
-        d = F / dF
-        chi -= d
-        if abs(d) < 1e-12 * max(1.0, abs(chi)):
+        return (nr0 * vr0 / sm * chi ** 2 * C + (1 - alpha * nr0) * chi ** 3 * S + nr0 * chi - sm * dt,
+                nr0 * vr0 / sm * chi * (1 - alpha * chi ** 2 * S) + (1 - alpha * nr0) * chi ** 2 * C + nr0)
+
+    # F is increasing in chi (dF/dchi = r > 0), F(0) = -sqrt(mu) dt <= 0: bracket the root, then Newton kept inside the
+    # bracket (bisection otherwise) - near-rectilinear ellipses make the plain Newton iteration diverge
+    lo, hi = 0.0, max(sm * abs(alpha) * dt, 1.0)
+    for _ in range(200):
+        if FdF(hi)[0] >= 0:
+            break
+        lo, hi = hi, 2 * hi
+    chi = min(max(sm * abs(alpha) * dt, lo), hi)
+    for _ in range(300):
+        F, dF = FdF(chi)
+        if F < 0:
+            lo = chi
+        else:
+            hi = chi
+        new = chi - F / dF if dF > 0 else None
+        if new is None or not lo <= new <= hi:
+            new = (lo + hi) / 2
+        d = new - chi
+        chi = new
+        if abs(d) < 1e-13 * max(1.0, abs(chi)):
             break
     z = alpha * chi * chi
     C, S = stumpff(z)
@@ -328,6 +482,215 @@ def check_lambert(out, c, use_orbit_api):
                  observed={"miss_m": err, "v0": [float(x) for x in v0]}, expected={"miss_m": "< 10", "v0": [float(x) for x in v0t]})
 
 
+# ---------------------------------------------------------------- Lambert on hand-written geometry: exact zeros, axis-aligned positions
+
+AXES = [(1.0, 0.0, 0.0), (0.0, 1.0, 0.0), (0.0, 0.0, 1.0)]
+EXACT_CS = [(1.0, 0.0), (0.0, 1.0), (-1.0, 0.0), (0.0, -1.0)]
+
+
+def t_parab(r0, r1, long_way, mu):
+    """time of flight of the parabolic transfer (Euler's equation): every longer time has an elliptic solution of less than one revolution"""
+    n0 = math.sqrt(sum(x * x for x in r0))
+    n1 = math.sqrt(sum(x * x for x in r1))
+    c = math.sqrt(sum((x - y) ** 2 for x, y in zip(r0, r1)))
+    sp = (n0 + n1 + c) / 2
+    return math.sqrt(2) / 3 * math.sqrt(sp ** 3 / mu) * (1 + (1 if long_way else -1) * ((sp - c) / sp) ** 1.5)
+
+
+def gen_plane(rng, axis=True):
+    """an orthonormal pair spanning the transfer / orbit plane.  axis=True: exact unit vectors - a coordinate plane (every
+    component of the normal but one is an exact zero) or a plane containing one coordinate axis (one exact zero)"""
+    if not axis:
+        P, Q = pq(rng.uniform(0.02, math.pi - 0.02), rng.uniform(0, TWO_PI), rng.uniform(0, TWO_PI))
+        return [float(x) for x in P], [float(x) for x in Q], "generic"
+    if rng.random() < 0.65:
+        a, b = rng.sample([0, 1, 2], 2)
+        sa, sb = rng.choice([1.0, -1.0]), rng.choice([1.0, -1.0])
+        P = [sa * x for x in AXES[a]]
+        Q = [sb * x for x in AXES[b]]
+        return P, Q, "coordinate-plane-" + "xyz"[a] + "xyz"[b]
+    ax = rng.choice([0, 1, 2])
+    psi = rng.uniform(0, TWO_PI)
+    P = list(AXES[ax])
+    Q = [0.0, 0.0, 0.0]
+    Q[(ax + 1) % 3], Q[(ax + 2) % 3] = math.cos(psi), math.sin(psi)
+    if rng.random() < 0.5:
+        P, Q = Q, P
+    return P, Q, "plane-through-" + "xyz"[ax]
+
+
+def gen_geometry(rng, axis=True):
+    """two non-collinear positions (15 deg to 165 deg apart) in such a plane; the in-plane directions are exact
+    (1,0), (0,1), (-1,0), (0,-1) in 40 % of the draws: positions parallel to an axis, transfer angles of exactly 90 deg"""
+    while True:
+        P, Q, kind = gen_plane(rng, axis)
+
+        def cs():
+            if rng.random() < 0.4:
+                return rng.choice(EXACT_CS)
+            t = rng.uniform(0, TWO_PI)
+            return math.cos(t), math.sin(t)
+        (c0, s0), (c1, s1) = cs(), cs()
+        if abs(c0 * s1 - s0 * c1) < 0.26:
+            continue
+        n0, n1 = rng.uniform(6.7e6, 4.5e7), rng.uniform(6.7e6, 4.5e7)
+        r0 = [n0 * (c0 * P[k] + s0 * Q[k]) + 0.0 for k in range(3)]      # + 0.0: no negative zeros
+        r1 = [n1 * (c1 * P[k] + s1 * Q[k]) + 0.0 for k in range(3)]
+        return {"r0": r0, "r1": r1, "plane": kind}
+
+
+def cross3(a, b):
+    return [a[1] * b[2] - a[2] * b[1], a[2] * b[0] - a[0] * b[2], a[0] * b[1] - a[1] * b[0]]
+
+
+def geom_zone(r0, r1):
+    """crz0: the z component of r0 x r1 is exactly zero; crz~0: it is rounding noise (|cr[2]| <= 1e-9 |r0||r1|: a polar transfer plane
+    written with inexact components - the sign of cr[2], hence the way the code goes round, is an accident of rounding)"""
+    cr = cross3(r0, r1)
+    nn = math.sqrt(sum(x * x for x in r0) * sum(x * x for x in r1))
+    zone = "crz0" if cr[2] == 0 else "crz~0" if abs(cr[2]) <= 1e-9 * nn else "crz+" if cr[2] > 0 else "crz-"
+    return zone, "".join("0" if c == 0 else "x" for c in cr)
+
+
+def geom_tof(r0, r1, pro, factor, mu):
+    """a transfer time inside the property's domain (elliptic, less than one revolution) for the way round that the
+    request designates: prograde = positive z component of the angular momentum.  For cr[2] == 0 (polar transfer plane)
+    neither way is pro- or retrograde: the time is taken longer than both parabolic times, either way is acceptable (same for
+    cr[2] = rounding noise)."""
+    crz = cross3(r0, r1)[2]
+    if geom_zone(r0, r1)[0] in ("crz0", "crz~0"):
+        tp = t_parab(r0, r1, True, mu)
+    else:
+        short = (crz > 0) == pro
+        tp = t_parab(r0, r1, not short, mu)
+    return round(tp * factor, 6)
+
+
+_CENTER_FRAMES = {}
+CENTER_SCALE = {"Earth": 1.0, "Moon": 0.3, "Sun": 5000.0}     # lengths of the generators are multiplied by this
+
+
+def center_frame(name):
+    """(frame, mu) for a centre other than the default: the frames of beyond.env.solarsystem (analytical Sun / Moon); mu is read
+    from beyond.constants, not from the frame the code under test reads it from"""
+    import warnings
+    from beyond import constants
+    if name == "Earth":
+        return "EME2000", constants.Earth.mu
+    if name not in _CENTER_FRAMES:
+        from beyond.env import solarsystem
+        with warnings.catch_warnings():
+            warnings.simplefilter("ignore")
+            _CENTER_FRAMES[name] = solarsystem.get_frame(name)
+    return _CENTER_FRAMES[name], getattr(constants, name).mu
+
+
+def check_lambert_center(out, rng, center):
+    """lambert() in a frame centred on another body (docstring: 'orb0 should be expressed in the "Sun" ... reference frame'), the
+    target orbit possibly given in another frame: gravitational parameter of the frame's centre, conversion of the target"""
+    import numpy as np
+    from beyond.dates import Date, timedelta
+    from beyond.orbits import Orbit
+    from beyond.utils.lambert import lambert
+    frame, mu = center_frame(center)
+    sc = CENTER_SCALE[center]
+    g = gen_geometry(rng, axis=rng.random() < 0.5)
+    r0, r1 = np.array(g["r0"]) * sc, np.array(g["r1"]) * sc
+    pro = rng.random() < 0.5
+    factor = rng.uniform(1.1, 4.0)
+    tof = geom_tof(list(r0), list(r1), pro, factor, mu)
+    other = rng.choice([None, None, "EME2000" if center != "Earth" else "MOD", "TOD" if center == "Earth" else "EME2000"])
+    zone, zeros = geom_zone(list(r0), list(r1))
+    inp = {"center": center, "r0": [float(x) for x in r0], "r1": [float(x) for x in r1], "prograde": pro, "factor": factor, "tof": tof, "target_frame": other, "plane": g["plane"]}
+    out.count(key=("lambert-center", center, tuple(inp["r0"]), tuple(inp["r1"]), pro), kind="lambert-center-" + center, target_frame=str(other))
+    d0 = Date(2024, 1, 1) + timedelta(seconds=rng.uniform(0, 3e7))
+    o0 = Orbit(list(r0) + [0.0, 0.0, 0.0], d0, "cartesian", frame, None)
+    o1 = Orbit(list(r1) + [0.0, 0.0, 0.0], d0 + timedelta(seconds=tof), "cartesian", frame, None)
+    if other:
+        o1 = o1.copy(frame=other)
+    s0, s1 = lambert(o0, o1, pro)
+    v0 = np.array(s0[3:], float)
+    size = float(np.linalg.norm(r0) + np.linalg.norm(r1))
+    tol = max(10.0, 2e-9 * size)
+    tag = f"{center}-{'other-frame' if other else 'same-frame'}"
+    if str(s1.frame) != str(s0.frame) or not float(np.linalg.norm(np.asarray(s1[:3], float) - r1)) < max(1e-3, 1e-12 * size) * (1e3 if other else 1):
+        out.fail("lambert-center-target-" + tag, "lambert() does not return the target at its position in the frame of the initial orbit", inp,
+                 observed={"frame": str(s1.frame), "pos": [float(x) for x in s1[:3]]}, expected={"frame": str(s0.frame), "pos": inp["r1"]})
+        return
+    if not (np.all(np.isfinite(v0)) and float(np.abs(v0).max()) < 1e6):
+        out.fail("lambert-center-nonfinite-" + tag, "lambert() returns non-finite velocities in a frame centred on " + center, inp, observed=[float(x) for x in v0])
+        return
+    err = float(np.linalg.norm(kepler_uv(r0, v0, tof, mu) - r1))
+    if not err < tol:
+        out.fail("lambert-center-arrival-" + tag, "velocity returned by lambert() does not arrive at the target under the gravity of the centre of the frame of the initial orbit", inp,
+                 observed={"miss_m": err, "v0": [float(x) for x in v0]}, expected={"miss_m": f"< {tol}"})
+
+
+def check_lambert_geom(out, g, pro, factor, use_orbit_api):
+    """arrival, finiteness and direction of the Lambert velocities for positions given as plain vectors"""
+    import numpy as np
+    from beyond.dates import Date, timedelta
+    from beyond.orbits import Orbit
+    from beyond.utils.lambert import lambert, _lambert
+    from beyond.frames.frames import get_frame
+    mu = get_frame("EME2000").center.body.mu
+    r0, r1 = np.array(g["r0"], float), np.array(g["r1"], float)
+    zone, zeros = geom_zone(g["r0"], g["r1"])
+    tof = geom_tof(g["r0"], g["r1"], pro, factor, mu)
+    tag = f"{zone}-{'prograde' if pro else 'retrograde'}"
+    inp = {"r0": g["r0"], "r1": g["r1"], "plane": g["plane"], "prograde": pro, "factor": factor, "tof": tof, "mu": mu, "cross_zero_pattern": zeros}
+    out.count(key=("lambert-geom", tuple(g["r0"]), tuple(g["r1"]), pro, factor), kind="lambert-geom-" + zone, plane=g["plane"].split("-")[0],
+              cross_zeros=zeros, api="orbit" if use_orbit_api else "array")
+    if use_orbit_api:
+        d0 = Date(2021, 3, 4, 5, 6, 7)
+        # the velocities handed in are placeholders (lambert() replaces them)
+        o0 = Orbit(list(r0) + [0.0, 0.0, 0.0], d0, "cartesian", "EME2000", None)
+        o1 = Orbit(list(r1) + [0.0, 0.0, 0.0], d0 + timedelta(seconds=tof), "cartesian", "EME2000", None)
+        s0, s1 = lambert(o0, o1, pro)
+        v0, v1 = np.array(s0[3:], float), np.array(s1[3:], float)
+        if not (np.all(np.asarray(s0[:3]) == r0) and np.all(np.asarray(s1[:3]) == r1)):
+            out.fail("lambert-endpoints-changed", "lambert() altered the end positions", inp)
+            return None
+    else:
+        v0, v1 = _lambert(r0, r1, timedelta(seconds=tof), mu, pro)
+        v0, v1 = np.array(v0, float), np.array(v1, float)
+    ok = bool(np.all(np.isfinite(v0)) and np.all(np.isfinite(v1))) and max(float(np.abs(v0).max()), float(np.abs(v1).max())) < 1e5
+    if not ok:
+        out.fail("lambert-geom-nonfinite-" + tag, "Lambert solver returns non-finite or absurd (> 1e5 m/s) velocities for non-collinear positions and a transfer time "
+                 "with an elliptic solution of less than one revolution", inp, observed=[float(x) for x in v0], expected="finite velocities arriving at r1")
+        return None
+    err = float(np.linalg.norm(kepler_uv(r0, v0, tof, mu) - r1))
+    if not err < 10.0:
+        out.fail("lambert-geom-arrival-" + tag, "velocity returned by the Lambert solver does not arrive at the target position (two-body propagation over the transfer time)",
+                 inp, observed={"miss_m": err, "v0": [float(x) for x in v0]}, expected={"miss_m": "< 10"})
+        return None
+    back = float(np.linalg.norm(kepler_uv(r1, -v1, tof, mu) - r0))
+    if not back < 10.0:
+        out.fail("lambert-geom-v1-" + tag, "arrival velocity returned by the Lambert solver, reversed and propagated over the transfer time, does not come back to r0",
+                 inp, observed={"miss_m": back, "v1": [float(x) for x in v1]}, expected={"miss_m": "< 10"})
+        return None
+    hz = float(np.cross(r0, v0)[2])
+    if zone in ("crz+", "crz-") and not (hz > 0) == pro:
+        out.fail("lambert-geom-direction-" + tag, "the returned transfer orbit does not go round the requested way (sign of the z component of r0 x v0)", inp,
+                 observed=hz, expected="> 0" if pro else "< 0")
+        return None
+    return v0
+
+
+def check_lambert_pair(out, rng, axis, use_orbit_api):
+    """both requests on one geometry; they are the two ways round, hence different velocities"""
+    import numpy as np
+    g = gen_geometry(rng, axis)
+    factor = rng.choice([rng.uniform(1.05, 1.5), rng.uniform(1.5, 5.0)])
+    va = check_lambert_geom(out, g, True, factor, use_orbit_api)
+    vb = check_lambert_geom(out, g, False, factor, use_orbit_api)
+    if va is not None and vb is not None and geom_zone(g["r0"], g["r1"])[0] in ("crz0", "crz~0"):
+        # same transfer time for both requests here (geom_tof)
+        if not float(np.linalg.norm(va - vb)) > 1.0:
+            out.fail("lambert-geom-two-ways-crz0", "prograde and retrograde requests return the same transfer", dict(g, factor=factor),
+                     observed=[float(x) for x in va], expected="two different ways round")
+
+
 # ---------------------------------------------------------------- SSO
 
 OMEGA_SUN = TWO_PI / 365.256363004 / 86400     # mean motion of the Sun the code uses (sidereal year)
@@ -371,11 +734,197 @@ def check_sso(out, rng, preset=None):
         out.fail("sso-node-rate", "J2 node drift of the sun-synchronous orbit differs from the mean solar rate", dict(inp, i=i, T=T), observed=rate, expected=OMEGA_SUN)
 
 
+# ---------------------------------------------------------------- histories on ONE orbit object carrying a J2 propagator
+
+def sso_in_domain(a, e):
+    return 2 / 3 * OMEGA_SUN * a ** 3.5 * (1 - e * e) ** 2 / (math.sqrt(MU_E) * 6378136.3 ** 2 * 1.08263e-3) < 0.98
+
+
+def node_rate_of(orb, T, how):
+    """node drift rate of `orb` over T seconds through the public API: propagate(timedelta) or the last point of iter()"""
+    from beyond.dates import timedelta
+    O0 = float(orb.copy(form="keplerian_mean").raan)
+    if how == "iter":
+        pts = list(orb.iter(stop=timedelta(seconds=T), step=timedelta(seconds=T / 2)))
+        new = pts[-1]
+    else:
+        new = orb.propagate(timedelta(seconds=T))
+    return ((float(new.copy(form="keplerian_mean").raan) - O0 + math.pi) % TWO_PI - math.pi) / T
+
+
+def check_sso_sequence(out, rng, preset=None):
+    """sso -> Orbit -> J2 propagate -> tune in place -> propagate: the node of the tuned orbit follows the Sun, and the result is
+    the one of a fresh object built from the current values"""
+    from beyond.utils.leo import sso
+    from beyond.orbits import Orbit
+    from beyond.dates import Date
+    from beyond.propagators.j2 import J2
+    if preset:
+        a, e, variant, first, second, T, wrong = (preset[k] for k in ("a", "e", "variant", "first", "second", "T", "wrong"))
+    else:
+        a, e = gen_sso(rng)
+        variant = rng.choice(["i", "i", "a", "e"])
+        first, second = rng.choice(["propagate", "iter"]), rng.choice(["propagate", "propagate", "iter"])
+        T = rng.choice([3600.0, 86400.0, 5 * 86400.0])
+        wrong = rng.uniform(0.05, 0.95)
+    i_sso = float(sso(a=a, e=e))
+    inp = {"a": a, "e": e, "variant": variant, "first": first, "second": second, "T": T, "wrong": wrong}
+    # the orbit as first built: one element is not yet the sun-synchronous one
+    el = [a, e, i_sso, rng.uniform(0.5, 5.5), rng.uniform(0, 6), rng.uniform(0, 6)]
+    if variant == "i":
+        el[2] = wrong * math.pi
+        k, val = 2, i_sso
+    elif variant == "a":
+        el[0] = a * (0.8 + 0.5 * wrong)
+        k, val = 0, float(sso(e=e, i=i_sso))
+    else:
+        el[1] = min(0.6, e + 0.02 + 0.3 * wrong)
+        k, val = 1, float(sso(a=a, i=i_sso))
+    date = Date(2022, 1, 1)
+    orb = Orbit(list(el), date, "keplerian_mean", "EME2000", J2() if rng.random() < 0.5 else "J2")
+    before = node_rate_of(orb, T, first)
+    orb[k] = val                              # tune in place
+    after = node_rate_of(orb, T, second)
+    cur = [float(x) for x in orb]
+    fresh = node_rate_of(Orbit(cur, date, "keplerian_mean", "EME2000", J2()), T, "propagate")
+    out.count(key=("sso-seq", a, e, variant, first, second, T), kind="sso-sequence-" + variant, first=first, second=second)
+    tol = 1e-7 * OMEGA_SUN + 1e-13 / T
+    if not abs(after - OMEGA_SUN) <= tol:
+        out.fail(f"sso-sequence-node-rate-tuned-{variant}-{second}", "J2 node drift of an orbit tuned in place to the sun-synchronous value (after an earlier propagation "
+                 "of the same object) differs from the mean solar rate", inp, observed={"rate_before": before, "rate_after": after, "fresh_object": fresh}, expected=OMEGA_SUN)
+    elif not abs(after - fresh) <= tol:
+        out.fail(f"sso-sequence-vs-fresh-{variant}-{second}", "propagation after an in-place change differs from the propagation of a fresh object with the same values", inp,
+                 observed=after, expected=fresh)
+
+
+def gen_j2_history(rng):
+    """a history of operations on one J2 orbit object: propagate / write an element in place / write the date; it contains
+    at least one propagate -> write -> propagate"""
+    while True:
+        a, e = gen_sso(rng)
+        if e >= 0.002:
+            break
+    cur = [a, e, rng.uniform(0.1, 3.0), rng.uniform(0.5, 5.5), rng.uniform(0.2, 6), rng.uniform(0.2, 6)]
+    el0 = list(cur)
+    ops = []
+
+    def dt():
+        return round(rng.choice([60.0, 3600.0, 86400.0, rng.uniform(-1e5, 1e6)]), 3)
+
+    def write():
+        k = rng.choice([0, 1, 2, 2, 2, 3, 4, 5])
+        if k == 0:
+            v = cur[0] * rng.uniform(0.97, 1.05)
+        elif k == 1:
+            v = rng.uniform(0.002, 0.3)
+        elif k == 2:
+            v = rng.uniform(0.1, 3.0)
+            if rng.random() < 0.5 and sso_in_domain(cur[0], cur[1]):
+                v = "sso"
+        else:
+            v = rng.uniform(0.2, 6)
+        if v != "sso":
+            cur[k] = v
+        return ("S", k, v)
+    def anyop(kinds):
+        k = rng.choice(kinds)
+        return ("P", dt()) if k == "P" else write() if k == "S" else ("D", round(rng.uniform(-1e5, 1e5), 3))
+    for _ in range(rng.randint(0, 3)):
+        ops.append(anyop("PSD"))
+    ops += [("P", dt()), write()]
+    for _ in range(rng.randint(0, 2)):
+        ops.append(anyop("SD"))
+    ops.append(("P", dt()))
+    for _ in range(rng.randint(0, 3)):
+        ops.append(anyop("PPSD"))
+    ops.append(("P", dt()))
+    return el0, ops
+
+
+def run_j2_history(el0, ops):
+    """the history on the real objects; returns (token list for the model, [a e i raan argp M t] of every propagation).
+    'sso' writes are resolved here with the real sso() on the CURRENT a, e of the object"""
+    from beyond.utils.leo import sso
+    from beyond.orbits import Orbit
+    from beyond.dates import Date, timedelta
+    from beyond.propagators.j2 import J2
+    d0 = Date(2022, 1, 1)
+    orb = Orbit(list(el0), d0, "keplerian_mean", "EME2000", J2())
+    toks, outs = [], []
+    for op in ops:
+        if op[0] == "P":
+            # both branches of `if type(date) is timedelta` in J2.propagate: a span, or the absolute date that span leads to
+            arg = timedelta(seconds=op[1]) if (len(toks) + len(outs)) % 3 else orb.date + timedelta(seconds=op[1])
+            res = orb.propagate(arg).copy(form="keplerian_mean")
+            outs.append([float(x) for x in res] + [(res.date - d0).total_seconds()])
+            toks += ["P", f2b(op[1])]
+        elif op[0] == "S":
+            v = float(sso(a=float(orb[0]), e=float(orb[1]))) if op[2] == "sso" else op[2]
+            orb[op[1]] = v
+            toks += ["S", str(op[1]), f2b(v)]
+        else:
+            orb.date = d0 + timedelta(seconds=op[1])
+            toks += ["D", f2b(op[1])]
+    return toks, outs
+
+
+def check_helper_histories(out, rng):
+    """read - modify in place - read again on the objects the helpers take: the second read is the one of a fresh object"""
+    import numpy as np
+    from beyond.orbits import Orbit
+    from beyond.dates import Date
+    from beyond.utils.beta import beta
+    from beyond.utils.interplanetary import bplane
+    from beyond.utils.constellation import WalkerStar, WalkerDelta
+    from beyond.frames.frames import get_frame
+    mu = get_frame("EME2000").center.body.mu
+    date = Date(2023, 5, 6)
+    which = rng.choice(["beta", "bplane", "walker"])
+    out.count(key=("history", which, rng.random()), kind="history-" + which)
+    if which == "beta":
+        el = [rng.uniform(7e6, 4e7), rng.uniform(0, 0.5), rng.uniform(0.1, 3.0), rng.uniform(0, 6), rng.uniform(0, 6), rng.uniform(0, 6)]
+        ref = Orbit([rng.uniform(7e6, 4e7), 0.1, rng.uniform(0.1, 3.0), 1.0, 2.0, rng.uniform(0, 6)], date, "keplerian", "EME2000", "Kepler")
+        orb = Orbit(el, date, "keplerian", "EME2000", "Kepler")
+        b1 = float(beta(orb, ref))
+        k = rng.choice([2, 3])
+        orb[k] = rng.uniform(0.1, 3.0)
+        b2 = float(beta(orb, ref))
+        fresh = float(beta(Orbit([float(x) for x in orb], date, "keplerian", "EME2000", "Kepler"), ref))
+        if not abs(b2 - fresh) < 1e-12:
+            out.fail("history-beta-stale", "beta() of an orbit modified in place differs from beta() of a fresh orbit with the same elements", {"elements": el, "k": k, "first": b1},
+                     observed=b2, expected=fresh)
+    elif which == "bplane":
+        e = rng.uniform(1.1, 5.0)
+        r, v = kep2cart(-rng.uniform(5e6, 5e8), e, rng.uniform(0.1, 3.0), rng.uniform(0, 6), rng.uniform(0, 6), rng.uniform(-0.9, 0.9) * math.acos(-1 / e), mu)
+        orb = Orbit(list(r) + list(v), date, "cartesian", "EME2000", None)
+        B1 = np.asarray(bplane(orb).B, float)
+        orb[3:] = np.asarray(orb[3:]) * rng.uniform(1.05, 1.5)
+        B2 = np.asarray(bplane(orb).B, float)
+        Bf = np.asarray(bplane(Orbit([float(x) for x in orb], date, "cartesian", "EME2000", None)).B, float)
+        if not np.allclose(B2, Bf, rtol=1e-12, atol=0):
+            out.fail("history-bplane-stale", "bplane() of an orbit modified in place differs from bplane() of a fresh orbit with the same state", {"state": [float(x) for x in orb], "first": B1.tolist()},
+                     observed=B2.tolist(), expected=Bf.tolist())
+    else:
+        cls = rng.choice([WalkerStar, WalkerDelta])
+        t, p, f = gen_walker(rng)
+        w = cls(t, p, f, rng.uniform(0, TWO_PI))
+        first = list(w.iter_fleet())
+        t2, p2, f2 = gen_walker(rng)
+        raan2 = rng.uniform(0, TWO_PI)
+        w.total, w.planes, w.spacing, w.raan0 = t2, p2, f2, raan2
+        second = [(float(a), float(b)) for a, b in w.iter_fleet()]
+        fresh = [(float(a), float(b)) for a, b in cls(t2, p2, f2, raan2).iter_fleet()]
+        if second != fresh:
+            out.fail("history-walker-stale-" + cls.__name__, "a Walker object whose attributes were changed after a first iteration does not generate the fleet of a fresh object",
+                     {"first": [t, p, f], "then": [t2, p2, f2, raan2]}, observed=second[:6], expected=fresh[:6])
+
+
 # ---------------------------------------------------------------- LTAN
 
 def gen_date(rng):
     from beyond.dates import Date
-    return Date(rng.randint(1995, 2035), rng.randint(1, 12), rng.randint(1, 28), rng.randint(0, 23), rng.randint(0, 59), rng.randint(0, 59), rng.randint(0, 999999))
+    return Date(rng.randint(1995, 2035), rng.randint(1, 12), rng.randint(1, 28), rng.randint(0, 23), rng.randint(0, 59), rng.randint(0, 59), rng.randint(0, 999999),
+                scale=rng.choice(["UTC", "UTC", "TAI", "TT"]))
 
 
 def circ(a, b, m):
@@ -410,13 +959,18 @@ def gen_walker(rng):
     return p * s, p, f
 
 
+def gen_raan0(rng):
+    """0 (the default), a random angle, a whole number of degrees, tenths of a degree, close to a full turn"""
+    return rng.choice([0.0, rng.uniform(0, TWO_PI), rng.uniform(0, TWO_PI), math.radians(rng.randint(1, 359)), math.radians(rng.randint(1, 3599) / 10), TWO_PI - rng.uniform(0, 1e-3)])
+
+
 def check_walker(out, rng, preset=None):
     from beyond.utils.constellation import WalkerStar, WalkerDelta
     if preset:
         t, p, f, raan0 = preset
     else:
         t, p, f = gen_walker(rng)
-        raan0 = rng.choice([0.0, rng.uniform(0, TWO_PI)])
+        raan0 = gen_raan0(rng)
     for cls, span in ((WalkerDelta, TWO_PI), (WalkerStar, math.pi)):
         w = cls(t, p, f, raan0)
         fleet = [(float(r), float(n)) for r, n in w.iter_fleet()]
@@ -440,19 +994,39 @@ def check_walker(out, rng, preset=None):
 
 # ---------------------------------------------------------------- beta
 
-def check_beta(out, rng):
+def axis_state(rng):
+    """a bound orbit state whose plane is spanned by exact unit vectors (equatorial, polar through an axis, plane through one
+    axis): position and velocity have exact-zero components, r x v has exact-zero components"""
+    P, Q, kind = gen_plane(rng, True)
+    c, s_ = rng.choice(EXACT_CS) if rng.random() < 0.5 else (lambda t: (math.cos(t), math.sin(t)))(rng.uniform(0, TWO_PI))
+    n0 = rng.uniform(6.7e6, 4.3e7)
+    vc = math.sqrt(MU_E / n0) * rng.uniform(0.8, 1.2)
+    fpa = rng.uniform(-0.3, 0.3) if rng.random() < 0.5 else 0.0
+    r = [n0 * (c * P[k] + s_ * Q[k]) + 0.0 for k in range(3)]
+    # velocity: in-plane, perpendicular to r turned by the flight-path angle
+    tc, ts = -s_ * math.cos(fpa) + c * math.sin(fpa), c * math.cos(fpa) + s_ * math.sin(fpa)
+    v = [vc * (tc * P[k] + ts * Q[k]) + 0.0 for k in range(3)]
+    return r, v, cross3(P, Q), kind
+
+
+def check_beta(out, rng, mode=None):
     import numpy as np
     from beyond.orbits import Orbit
     from beyond.utils.beta import beta
     from beyond.env.solarsystem import get_body
     date = gen_date(rng)
-    a = rng.uniform(6.7e6, 4.3e7)
-    orb = Orbit([a, rng.uniform(0, 0.6), rng.uniform(0, math.pi), rng.uniform(0, TWO_PI), rng.uniform(0, TWO_PI), rng.uniform(0, TWO_PI)],
-                date, "keplerian", "EME2000", "Kepler")
+    mode = mode or rng.choice(["Sun", "Moon", "orbit", "normal", "axis-body", "axis-orbit"])
+    if mode == "axis-orbit":
+        r, v, _, _ = axis_state(rng)
+        orb = Orbit(r + v, date, "cartesian", "EME2000", "Kepler")
+        a = float(np.linalg.norm(r))
+    else:
+        a = rng.uniform(6.7e6, 4.3e7)
+        orb = Orbit([a, rng.uniform(0, 0.6), rng.uniform(0, math.pi), rng.uniform(0, TWO_PI), rng.uniform(0, TWO_PI), rng.uniform(0, TWO_PI)],
+                    date, "keplerian", "EME2000", "Kepler")
     cart = np.asarray(orb.copy(form="cartesian"), float)
     w = np.cross(cart[:3], cart[3:])
     wh = w / np.linalg.norm(w)
-    mode = rng.choice(["Sun", "Moon", "orbit", "normal"])
     if mode in ("Sun", "Moon"):
         ref = mode
         pos = np.asarray(get_body(mode).propagate(date).copy(frame="EME2000", form="cartesian")[:3], float)
@@ -461,10 +1035,13 @@ def check_beta(out, rng):
             el = [rng.uniform(7e6, 4.3e7), rng.uniform(0, 0.5), rng.uniform(0, math.pi), rng.uniform(0, TWO_PI), rng.uniform(0, TWO_PI), rng.uniform(0, TWO_PI)]
             ref = Orbit(el, date, "keplerian", "EME2000", "Kepler")
         else:
-            # a body (almost) exactly on the orbit normal: beta = +-90 deg
-            sgn = rng.choice([1.0, -1.0])
-            p = sgn * wh * rng.uniform(7e6, 1e9)
-            t = np.cross(wh, [0.3, -0.5, 0.8])
+            if mode == "normal" or (mode == "axis-orbit" and rng.random() < 0.4):
+                # a body (almost, or - for an axis-aligned orbit - exactly) on the orbit normal: beta = +-90 deg
+                p = rng.choice([1.0, -1.0]) * wh * rng.uniform(7e6, 1e9)
+            else:
+                # a body exactly on a coordinate axis
+                p = np.array(rng.choice(AXES)) * rng.choice([1.0, -1.0]) * rng.uniform(7e6, 1e9) + 0.0
+            t = np.cross(p / np.linalg.norm(p), [0.3, -0.5, 0.8])
             t /= np.linalg.norm(t)
             ref = Orbit(list(p) + list(t * math.sqrt(MU_E / np.linalg.norm(p))), date, "cartesian", "EME2000", "Kepler")
         pos = np.asarray(ref.copy(form="cartesian"), float)[:3]
@@ -474,53 +1051,73 @@ def check_beta(out, rng):
     elev = math.atan2(up, float(np.linalg.norm(s - up * wh)))
     inp = {"date": str(date), "orbit": [float(x) for x in cart], "ref": mode, "ref_pos": [float(x) for x in pos]}
     out.count(key=("beta", str(date), a, mode), kind="beta-" + mode)
+    on_normal = abs(abs(up) - 1) < 1e-12
     if not (math.isfinite(b) and -math.pi / 2 <= b <= math.pi / 2):
-        out.fail("beta-range-" + ("normal" if mode == "normal" else "generic"), "beta angle outside [-90 deg, 90 deg] (or not a number)", inp, observed=b, expected=elev)
+        out.fail("beta-range-" + ("normal" if on_normal else "generic"), "beta angle outside [-90 deg, 90 deg] (or not a number)", inp, observed=b, expected=elev)
     elif not abs(b - elev) < 1e-7:     # arcsin loses half the digits next to +-90 deg
-        out.fail("beta-elevation", "beta differs from the elevation of the body above the orbit plane", inp, observed=b, expected=elev)
+        out.fail("beta-elevation" + ("-axis" if mode.startswith("axis") else ""), "beta differs from the elevation of the body above the orbit plane", inp, observed=b, expected=elev)
 
 
 # ---------------------------------------------------------------- B-plane
 
-def check_bplane(out, rng):
+def hyper_state(rng, axis, mu, scale=1.0):
+    """a hyperbolic state (e in [1.05, 10], any anomaly short of the asymptotes); axis=True: the hyperbola lies in a plane
+    spanned by exact unit vectors, with the periapsis direction P along one of them (exact-zero components throughout)"""
+    import numpy as np
+    e = rng.choice([rng.uniform(1.05, 2.0), rng.uniform(2.0, 10.0)])
+    a = -rng.uniform(5e6, 5e8) * scale
+    nu = rng.uniform(-0.97, 0.97) * math.acos(-1 / e)
+    if axis:
+        while True:
+            P, Q, kind = gen_plane(rng, True)
+            # S must not be along the pole (0, 0, 1) (T undefined there): true for every e when the plane is not spanned by z and S
+            Sx = [P[k] / e + Q[k] * math.sqrt(e * e - 1) / e for k in range(3)]
+            if math.hypot(Sx[0], Sx[1]) > 0.05:
+                break
+        P, Q = np.array(P), np.array(Q)
+    else:
+        P, Q = pq(rng.uniform(0.05, math.pi - 0.05), rng.uniform(0, TWO_PI), rng.uniform(0, TWO_PI))
+        kind = "generic"
+    p = a * (1 - e * e)
+    rr = p / (1 + e * math.cos(nu))
+    r = rr * (math.cos(nu) * P + math.sin(nu) * Q) + 0.0
+    v = math.sqrt(mu / p) * (-math.sin(nu) * P + (e + math.cos(nu)) * Q) + 0.0
+    return a, e, nu, P, Q, r, v, kind
+
+
+def check_bplane(out, rng, axis=False, center="Earth"):
     import numpy as np
     from beyond.orbits import Orbit
     from beyond.dates import Date
     from beyond.utils.interplanetary import bplane
-    from beyond.frames.frames import get_frame
-    mu = get_frame("EME2000").center.body.mu
-    e = rng.choice([rng.uniform(1.05, 2.0), rng.uniform(2.0, 10.0)])
-    a = -rng.uniform(5e6, 5e8)
-    i, O, w = rng.uniform(0.05, math.pi - 0.05), rng.uniform(0, TWO_PI), rng.uniform(0, TWO_PI)
-    nu_inf = math.acos(-1 / e)
-    nu = rng.uniform(-0.97, 0.97) * nu_inf
-    r, v = kep2cart(a, e, i, O, w, nu, mu)
-    orb = Orbit(list(r) + list(v), Date(2023, 5, 6), "cartesian", "EME2000", None)
+    frame, mu = center_frame(center)
+    a, e, nu, P, Q, r, v, kind = hyper_state(rng, axis, mu, CENTER_SCALE[center])
+    orb = Orbit(list(r) + list(v), Date(2023, 5, 6), "cartesian", frame, None)
     bp = bplane(orb)
     B, S, T, Rv, h = (np.asarray(x, float) for x in (bp.B, bp.S, bp.T, bp.R, bp.h))
-    P, Q = pq(i, O, w)
     S_exp = P / e + Q * math.sqrt(e * e - 1) / e      # direction of the velocity for nu -> -nu_inf
     bn = abs(a) * math.sqrt(e * e - 1)
-    inp = {"a": a, "e": e, "i": i, "raan": O, "argp": w, "nu": nu, "state": [float(x) for x in list(r) + list(v)]}
-    out.count(key=("bplane", a, e, nu), kind="bplane", e_range="<2" if e < 2 else ">=2", side="incoming" if nu < 0 else "outgoing")
+    inp = {"a": a, "e": e, "plane": kind, "nu": nu, "center": center, "state": [float(x) for x in list(r) + list(v)]}
+    out.count(key=("bplane", a, e, nu), kind="bplane" + ("-axis" if axis else ""), e_range="<2" if e < 2 else ">=2", side="incoming" if nu < 0 else "outgoing", center=center)
     tol = 1e-9 * e * e / (e - 1)
+    sfx = ("-axis" if axis else "") + ("" if center == "Earth" else "-" + center)
     if not np.all(np.isfinite(np.concatenate([B, S, T, Rv]))):
-        out.fail("bplane-nonfinite", "B-plane of a hyperbolic state is not finite", inp, observed=[list(map(float, x)) for x in (B, S, T, Rv)])
+        out.fail("bplane-nonfinite" + sfx, "B-plane of a hyperbolic state is not finite", inp, observed=[list(map(float, x)) for x in (B, S, T, Rv)])
         return
     if not np.linalg.norm(S - S_exp) < tol:
-        out.fail("bplane-S-asymptote", "S is not the direction of the incoming asymptote", inp, observed=list(map(float, S)), expected=list(map(float, S_exp)))
+        out.fail("bplane-S-asymptote" + sfx, "S is not the direction of the incoming asymptote", inp, observed=list(map(float, S)), expected=list(map(float, S_exp)))
     gram = np.array([[x @ y for y in (S, T, Rv)] for x in (S, T, Rv)])
     if not np.allclose(gram, np.eye(3), atol=tol):
-        out.fail("bplane-orthonormal", "(S, T, R) is not orthonormal", inp, observed=gram.tolist())
+        out.fail("bplane-orthonormal" + sfx, "(S, T, R) is not orthonormal", inp, observed=gram.tolist())
     if not (abs(B @ S) < tol * bn and abs(B @ h) < tol * bn * np.linalg.norm(h)):
-        out.fail("bplane-B-perp", "B is not perpendicular to S and to the angular momentum", inp, observed=[float(B @ S), float(B @ h)])
+        out.fail("bplane-B-perp" + sfx, "B is not perpendicular to S and to the angular momentum", inp, observed=[float(B @ S), float(B @ h)])
     if not abs(np.linalg.norm(B) - bn) < 1e-8 * bn * e / (e - 1):
-        out.fail("bplane-B-norm", "|B| differs from the impact parameter |a| sqrt(e^2 - 1)", inp, observed=float(np.linalg.norm(B)), expected=bn)
+        out.fail("bplane-B-norm" + sfx, "|B| differs from the impact parameter |a| sqrt(e^2 - 1)", inp, observed=float(np.linalg.norm(B)), expected=bn)
     # B also is the offset of the incoming asymptote from the focus: B = r_inf - (r_inf . S) S for a point far out on the asymptote
     # (checked through h: |h| = |B| v_inf and B x S parallel to h)
     vinf = math.sqrt(mu / abs(a))
     if not np.linalg.norm(np.cross(B, S * vinf) - h) < 1e-8 * np.linalg.norm(h) * e / (e - 1):
-        out.fail("bplane-B-moment", "B x v_inf differs from the angular momentum", inp, observed=list(map(float, np.cross(B, S * vinf))), expected=list(map(float, h)))
+        out.fail("bplane-B-moment" + sfx, "B x v_inf differs from the angular momentum", inp, observed=list(map(float, np.cross(B, S * vinf))), expected=list(map(float, h)))
 
 
 # ---------------------------------------------------------------- correspondence: compiled Lean model vs real code
@@ -529,12 +1126,14 @@ def _floats(rep):
     return [b2f(t) for t in rep.split()]
 
 
-def _cmp(out, family, what, inp, real, model, rtol=1e-9, atol=0.0, scales=None, exact=False):
+def _cmp(out, family, what, inp, real, model, rtol=1e-9, atol=0.0, scales=None, exact=False, skip=()):
     if len(real) != len(model):
         out.fail(family, what + " (length)", inp, observed=list(real), expected=list(model))
         return False
     for k, (a, b) in enumerate(zip(real, model)):
         a = float(a)
+        if k in skip:
+            continue
         if exact:
             ok = f2b(a) == f2b(b)
         else:
@@ -596,6 +1195,11 @@ def correspondence(ctx):
         spd = max(abs(x) for x in real) if fin else 1.0
         inp = dict(c, prograde=pro)
         out.count(key=("lambert", c["a"], c["e"], c["nu0"], c["dnu"], pro), kind="lambert-solve", prograde=pro, way="short" if c["dnu"] < math.pi else "long", finite=fin)
+        if pro == (c["i"] < math.pi / 2) and not (fin and spd < 1e5):
+            # the request matches the orbit the arc was cut from: inside the property's domain, where a non-finite / absurd
+            # result is a failure of the code whatever the model says
+            out.fail(lambert_family(c, False), "Lambert solver returns non-finite or absurd velocities for an elliptic transfer of less than one revolution", inp,
+                     observed=real, expected="finite velocities", violates_property=True)
 
         def chk(rep, real=real, inp=inp, spd=spd, fin=fin):
             if rep in ("fuel", "bad-op"):
@@ -610,6 +1214,76 @@ def correspondence(ctx):
             _cmp(out, "model-lambert-solve", "_lambert velocities differ from the model", inp, real, m[:6], rtol=1e-7 * (1 + 0.01 / inp["dE"] ** 2), scales=[spd] * 6)
             out.sample({"request": "lambert", "input": {k: inp[k] for k in ("a", "e", "dnu", "tof", "prograde")}, "impl": real, "model": m}, limit=2)
         add(" ".join(["lambert", "1" if pro else "0"] + [f2b(x) for x in list(r0) + list(r1) + [c["tof"], mu]]), chk)
+    # 2b. full solver on hand-written geometry (exact zeros in the positions and in r0 x r1, axis-aligned positions, transfer
+    #     angles of exactly 90 deg), both requests; + the transfer angle / A of the model alone on the same geometry
+    for k in range(ctx.n(90, 3000)):
+        g = gen_geometry(rng, axis=(k % 4 != 3))
+        zone, zeros = geom_zone(g["r0"], g["r1"])
+        factor = rng.choice([rng.uniform(1.05, 1.5), rng.uniform(1.5, 5.0)])
+        dths = {}
+        for pro in (True, False):
+            tof = geom_tof(g["r0"], g["r1"], pro, factor, mu)
+            v0, v1 = L._lambert(np.array(g["r0"]), np.array(g["r1"]), timedelta(seconds=tof), mu, pro)
+            real = [float(x) for x in list(v0) + list(v1)]
+            fin = all(math.isfinite(x) for x in real) and max(abs(x) for x in real) < 1e5
+            inp = dict(g, prograde=pro, factor=factor, tof=tof, mu=mu, cross_zero_pattern=zeros)
+            out.count(key=("lambert-geom", tuple(g["r0"]), tuple(g["r1"]), pro, factor), kind="lambert-solve-geom-" + zone, plane=g["plane"].split("-")[0], cross_zeros=zeros, finite=fin)
+            if not fin:
+                # inside the property's domain a non-finite / absurd result is a failure of the code, whatever the model says
+                out.fail(f"lambert-geom-nonfinite-{zone}-{'prograde' if pro else 'retrograde'}", "Lambert solver returns non-finite or absurd (> 1e5 m/s) velocities for "
+                         "non-collinear positions and a transfer time with an elliptic solution of less than one revolution", inp, observed=real,
+                         expected="finite velocities arriving at r1", violates_property=True)
+
+            def chk(rep, real=real, inp=inp, fin=fin):
+                if rep in ("fuel", "bad-op"):
+                    out.fail("model-lambert-solve-geom", "model rejected the request: " + rep, inp, observed=real, expected=rep)
+                    return
+                m = _floats(rep)
+                if not fin:
+                    return
+                if m[7] != 1.0:
+                    out.fail("model-lambert-solve-geom", "model Newton loop did not leave through `break` although the code returned finite velocities", inp, observed=real, expected=m)
+                    return
+                spd = max(abs(x) for x in real)
+                zr = max(abs(m[6]), 1e-4)
+                _cmp(out, "model-lambert-solve-geom", "_lambert velocities differ from the model", inp, real, m[:6], rtol=1e-7 * (1 + 0.01 / zr), scales=[spd] * 6)
+            add(" ".join(["lambert", "1" if pro else "0"] + [f2b(x) for x in g["r0"] + g["r1"] + [tof, mu]]), chk)
+
+            def chk_d(rep, inp=inp, pro=pro, dths=dths):
+                d, A = _floats(rep)
+                dths[pro] = d
+                # the conclusions of lamDtheta_range / lambert_A_ne_zero / lamDtheta_two_ways on the compiled (double) model
+                ok = math.isfinite(d) and 1e-3 < d < TWO_PI - 1e-3 and abs(d - math.pi) > 1e-3 and math.isfinite(A) and abs(A) > 1.0 and (A > 0) == (d < math.pi)
+                if ok and len(dths) == 2:
+                    ok = abs(dths[True] + dths[False] - TWO_PI) < 1e-9
+                if not ok:
+                    out.fail("model-lambert-dtheta-" + inp["cross_zero_pattern"], "transfer angle / A of the model (translated from _lambert) is degenerate on a non-collinear geometry", inp,
+                             observed={"dtheta": d, "A": A, "other_request": dths.get(not pro)}, expected="0 < dtheta < 2 pi, dtheta != pi, A finite and non-zero, the two requests adding up to 2 pi")
+            add(" ".join(["dtheta", "1" if pro else "0"] + [f2b(x) for x in g["r0"] + g["r1"]]), chk_d)
+    # 2c. histories on ONE orbit object with a J2 propagator (propagate / write elements in place / write the date): every
+    #     propagation against the state machine of the model (whose propagator keeps nothing between two calls)
+    for _ in range(ctx.n(80, 2500)):
+        el0, ops = gen_j2_history(rng)
+        toks, outs = run_j2_history(el0, ops)
+        real = [x for o in outs for x in o]
+        e_min = min([el0[1]] + [op[2] for op in ops if op[0] == "S" and op[1] == 1])
+        inp = {"elements": el0, "ops": [list(o) for o in ops]}
+        shape = "".join(o[0] for o in ops)
+        out.count(key=("j2seq", tuple(el0), shape), kind="j2-history", n_ops=min(len(ops), 9), writes_between_propagations="PS" in shape or "PD" in shape)
+
+        def chk(rep, real=real, inp=inp, e_min=e_min):
+            m = _floats(rep)
+            if len(m) != len(real):
+                out.fail("model-j2-history", "number of propagation results differs", inp, observed=len(real) // 7, expected=len(m) // 7)
+                return
+            for j in range(0, len(m), 7):
+                r_, m_ = real[j:j + 7], m[j:j + 7]
+                ok = (core.close(r_[0], m_[0], rtol=1e-9) and abs(r_[1] - m_[1]) < 1e-9 and abs(r_[2] - m_[2]) < 1e-9 and circ(r_[3], m_[3], TWO_PI) < 1e-9
+                      and circ(r_[4], m_[4], TWO_PI) < 1e-10 / e_min + 1e-9 and circ(r_[5], m_[5], TWO_PI) < 1e-10 / e_min + 1e-8 and abs(r_[6] - m_[6]) < 1e-5)
+                if not (ok or (any(not math.isfinite(x) for x in r_) and any(not math.isfinite(x) for x in m_))):
+                    out.fail("model-j2-history", f"propagation #{j // 7} of a history on one orbit object differs from the model (a e i raan argp M t)", inp, observed=r_, expected=m_)
+                    return
+        add(" ".join(["j2seq"] + [f2b(x) for x in [Earth.mu, Earth.r, Earth.J2] + list(el0) + [0.0]] + toks), chk)
     # 3. sun-synchronous solver and J2 node rate
     for _ in range(ctx.n(300, 10000)):
         a, e = gen_sso(rng) if rng.random() < 0.8 else (rng.uniform(6.5e6, 3e7), rng.uniform(0, 0.7))
@@ -647,7 +1321,7 @@ def correspondence(ctx):
         t, p, f = gen_walker(rng)
         if rng.random() < 0.2:
             t += rng.randint(1, p)     # planes not dividing the total: per_plane is the floor
-        raan0 = rng.choice([0.0, rng.uniform(0, TWO_PI)])
+        raan0 = gen_raan0(rng)
         for cls in (WalkerStar, WalkerDelta):
             real = [float(x) for pair in cls(t, p, f, raan0).iter_fleet() for x in pair]
             inp = {"pattern": cls.__name__, "t": t, "p": p, "f": f, "raan0": raan0}
@@ -694,6 +1368,45 @@ def correspondence(ctx):
         out.count(key=("bplane", a, e, nu), kind="bplane", e_range="<2" if e < 2 else ">=2")
         add(" ".join(["bplane", f2b(mu), f2b(aabs)] + [f2b(x) for x in list(r) + list(v)]),
             lambda rep, real=real, inp=inp, sc=sc: _cmp(out, "model-bplane", "bplane differs from the model", inp, real, _floats(rep), rtol=1e-9, scales=sc))
+    # 6b / 7b. axis-aligned states: orbit planes spanned by exact unit vectors, bodies exactly on an axis or on the orbit normal,
+    #          hyperbolas in a coordinate plane
+    for k in range(ctx.n(80, 3000)):
+        date = gen_date(rng)
+        r_, v_, nrm, kind = axis_state(rng)
+        orb = Orbit(r_ + v_, date, "cartesian", "EME2000", "Kepler")
+        m = rng.choice(["axis", "normal", "generic"])
+        if m == "axis":
+            pvec = np.array(rng.choice(AXES)) * rng.choice([1.0, -1.0]) * rng.uniform(7e6, 1e9) + 0.0
+        elif m == "normal":
+            pvec = np.array(nrm) / np.linalg.norm(nrm) * rng.choice([1.0, -1.0]) * rng.uniform(7e6, 1e9) + 0.0
+        else:
+            pvec = np.array([rng.uniform(-1, 1) for _ in range(3)]) * 1e8
+        t = np.cross(pvec / np.linalg.norm(pvec), [0.3, -0.5, 0.8])
+        t /= np.linalg.norm(t)
+        ref = Orbit(list(pvec) + list(t * math.sqrt(MU_E / np.linalg.norm(pvec))), date, "cartesian", "EME2000", "Kepler")
+        cart = [float(x) for x in orb]
+        pos = [float(x) for x in ref[:3]]
+        real = [beta(orb, ref)]
+        inp = {"orbit": cart, "ref_pos": pos, "plane": kind, "body": m}
+        out.count(key=("beta-axis", tuple(cart), tuple(pos)), kind="beta-axis-" + m, plane=kind.split("-")[0])
+        add(" ".join(["beta"] + [f2b(x) for x in cart + pos]),
+            lambda rep, real=real, inp=inp: _cmp(out, "model-beta-axis", "beta differs from the model", inp, real, _floats(rep), rtol=1e-9, atol=1e-7))
+    for _ in range(ctx.n(80, 3000)):
+        a, e, nu, P, Q, r, v, kind = hyper_state(rng, True, mu)
+        orb = Orbit(list(r) + list(v), Date(2023, 5, 6), "cartesian", "EME2000", None)
+        bp = bplane(orb)
+        aabs = abs(float(orb.infos.kep.a))
+        real = [float(x) for x in list(np.asarray(bp.B)) + [bp.theta] + list(np.asarray(bp.S)) + list(np.asarray(bp.T)) + list(np.asarray(bp.R)) + list(np.asarray(bp.e)) + list(np.asarray(bp.h))]
+        bn = float(np.linalg.norm(np.asarray(bp.B)))
+        hn = float(np.linalg.norm(np.asarray(bp.h)))
+        amp = e / (e - 1)
+        # theta = arccos(B.T / |B||T|) (not in the property, NOT_COVERED): B is parallel to T for an equatorial hyperbola, the argument is
+        # +-1 +- 1 ulp and the result 0, pi or NaN according to rounding, in the code as in the model - not compared here
+        sc = [bn * amp] * 3 + [1e3 * amp] + [amp] * 9 + [e * amp] * 3 + [hn] * 3
+        inp = {"a": a, "e": e, "nu": nu, "plane": kind, "state": [float(x) for x in list(r) + list(v)], "aAbs": aabs}
+        out.count(key=("bplane-axis", a, e, nu), kind="bplane-axis", plane=kind.split("-")[0])
+        add(" ".join(["bplane", f2b(mu), f2b(aabs)] + [f2b(x) for x in list(r) + list(v)]),
+            lambda rep, real=real, inp=inp, sc=sc: _cmp(out, "model-bplane-axis", "bplane differs from the model", inp, real, _floats(rep), rtol=1e-9, scales=sc, skip=(3,)))
     replies = core.Driver().run(reqs)
     for req, fn, rep in zip(reqs, post, replies):
         if rep == "bad-op":
@@ -716,7 +1429,22 @@ def oracle(ctx, widened):
         check_walker(out, rng)
         check_beta(out, rng)
         check_bplane(out, rng)
-    out.sample({"checks": "lambert arrival (universal-variable + Kepler propagator), sso self-inverse + J2 node rate, ltan<->raan, walker count/planes/phasing, beta range/elevation, bplane S/orthonormal/B"})
+    for k in range(N // 2):
+        check_lambert_pair(out, rng, axis=(k % 5 != 4), use_orbit_api=(k % 3 == 0))
+        check_sso_sequence(out, rng)
+        check_bplane(out, rng, axis=True)
+        check_helper_histories(out, rng)
+        check_lambert_center(out, rng, ("Sun", "Moon", "Earth")[k % 3])
+        check_bplane(out, rng, axis=(k % 2 == 0), center=("Moon", "Sun")[k % 2])
+    if big:
+        # every small Walker triple, both patterns, a non-zero raan0
+        for p in range(1, 7):
+            for sat in range(1, 5):
+                for f in range(p):
+                    check_walker(out, rng, preset=(p * sat, p, f, gen_raan0(rng)))
+    out.sample({"checks": "lambert arrival (universal-variable + Kepler propagator) on arcs cut from orbits and on hand-written geometry (exact zeros, axis-aligned, both requests: "
+                          "finite, arrival both ends, direction, two ways), sso self-inverse + J2 node rate incl. propagate -> tune in place -> propagate on one object, ltan<->raan, "
+                          "walker count/planes/phasing, beta range/elevation incl. axis-aligned, bplane S/orthonormal/B incl. coordinate planes, read - modify in place - read again on the helpers' objects"})
     return out
 
 
@@ -726,10 +1454,17 @@ def replay(f):
     import random
     out = Outcome()
     fam, inp = f["family"], f.get("input") or {}
-    if fam.startswith("lambert") and isinstance(inp, dict) and "dnu" in inp:
+    if fam.startswith("lambert") and not fam.startswith("lambert-geom") and isinstance(inp, dict) and "dnu" in inp:
         c = {k: inp[k] for k in ("a", "e", "i", "raan", "argp", "nu0", "dnu", "dE", "tof")}
         for api in (False, True):
             check_lambert(out, c, use_orbit_api=api)
+    elif fam.startswith("lambert-geom") and isinstance(inp, dict) and "r0" in inp:
+        g = {"r0": inp["r0"], "r1": inp["r1"], "plane": inp.get("plane", "?")}
+        for api in (False, True):
+            for pro in ((inp["prograde"],) if "prograde" in inp else (True, False)):
+                check_lambert_geom(out, g, pro, inp["factor"], api)
+    elif fam.startswith("sso-sequence") and isinstance(inp, dict):
+        check_sso_sequence(out, random.Random(0), preset=inp)
     elif fam.startswith("walker") and isinstance(inp, dict):
         check_walker(out, random.Random(0), preset=(inp["t"], inp["p"], inp["f"], inp["raan0"]))
     elif fam.startswith("sso") and isinstance(inp, dict):
